@@ -266,6 +266,9 @@ def run(ctx):
     ctx.rule("R-4.5", "the idle guard compares path numbers in one representation (shared with C03 R-3.8)", floor=3)
     ctx.rule("R-4.4", "restart round trip of accumulators: every path of traj_data is persisted, keys agree (shared with C06 R-6.1)", floor=2)
     ctx.rule("R-4.8", "the archived row of a replaced path is on disk before restart.toml records the path as gone (= C08 R-8.9: per-step file writes closed or flushed before the commit)", floor=3)
+    ctx.rule("R-4.9", "path numbers are never tested by truthiness (path 0 is a path): a rejected move on path 0 must not renumber it and orphan its accumulated weights", floor=3)
+    from .shared import path_number_truthiness
+    ctx.attempt(path_number_truthiness, ctx, "R-4.9", [REPEX, "infretis/classes/path.py", "infretis/core/tis.py"], ": a rejected move on path 0 gives it a new number and a fresh all-zero accumulator; the old weights are neither archived nor kept live, so data rows plus live weights no longer add up to the step count")
     ctx.attempt(r41, ctx)
     ctx.attempt(r42, ctx)
     ctx.attempt(r43, ctx)
@@ -279,6 +282,7 @@ def run(ctx):
 
 
 VARIANTS = [
+    B("c04-path-number-by-truthiness", REPEX, '            if out_traj.path_number is None or md_items["status"] == "ACC":', '            if not out_traj.path_number or md_items["status"] == "ACC":', "R-4.9", control=True, why="seeded C04_g"),
     B("c04-data-rows-buffered-handle", REPEX, '    with open(state.data_file, "a") as fp:\n        for pn in pn_archive:', '    fp = state.__dict__.setdefault("_data_fp", open(state.data_file, "a"))\n    if True:\n        for pn in pn_archive:', "R-4.8", control=True, why="seeded C04_f / C08_d (handle kept open between steps)"),
     B("c04-restart-resets-data-file", SETUP, '        curr["restarted_from"] = config["current"]["cstep"]\n', '        curr["restarted_from"] = config["current"]["cstep"]\n        config["output"]["data_file"] = os.path.join(config["output"]["data_dir"], "infretis_data.txt")\n', "R-4.7", control=True, why="seeded C04_d"),
     B("c04-record-weights-after-commit", REPEX, "        # record weights\n        locked_trajs = self.locked_paths()\n        if self._last_prob is None:\n            self.prob\n        for idx, live in enumerate(self.live_paths()):\n            if live not in locked_trajs:\n                self.traj_data[live][\"frac\"] += self._last_prob[:-1][idx, :]\n\n", "", "R-4.6", control=True, why="seeded C04_c",
